@@ -4,6 +4,7 @@ concrete the *real* CPython operation is used; otherwise an SMT definition from 
 is not modelled raises Unsupported (=> undecided), or is an uninterpreted function that is recorded
 in Engine.assumed.
 """
+import copy
 import ast
 import builtins
 import contextlib
@@ -882,11 +883,38 @@ def n_ordereddict(eng, args, kwargs, st):
     return n_dict(eng, args, kwargs, st)
 
 
+def _deep_clone(v, st, memo):
+    """copy.deepcopy on the modelled heap: containers and records are cloned (shared substructure stays shared), scalars are immutable"""
+    if isinstance(v, tuple):
+        return tuple(_deep_clone(x, st, memo) for x in v)
+    if isinstance(v, Opq):
+        raise Unsupported("deepcopy of an opaque object")
+    if not isinstance(v, Ref):
+        return v
+    if v.oid in memo:
+        return memo[v.oid]
+    c = st.heap[v.oid].copy()
+    r = st.alloc(c)
+    memo[v.oid] = r
+    if isinstance(c, HList):
+        c.items = [_deep_clone(x, st, memo) for x in c.items]
+    elif isinstance(c, HDict):
+        c.vals = {k: _deep_clone(x, st, memo) for k, x in c.vals.items()}
+    elif isinstance(c, HObj):
+        c.attrs = {k: _deep_clone(x, st, memo) for k, x in c.attrs.items()}
+    return r
+
+
+def n_deepcopy(eng, args, kwargs, st):
+    return ok(_deep_clone(args[0], st, {}), st)
+
+
 def n_identity(eng, args, kwargs, st):
     return ok(args[0] if len(args) == 1 else tuple(args), st)
 
 
 NATIVE = {
+    copy.deepcopy: n_deepcopy,
     len: n_len, isinstance: n_isinstance, type: n_type, int: n_int, float: n_float, bool: n_bool, str: n_str,
     complex: n_complex, sum: n_sum, any: n_any, all: n_all, map: n_map, filter: n_filter,
     enumerate: n_enumerate, range: n_range, next: n_next, iter: n_iter, tuple: n_tuple, list: n_list,
@@ -1075,6 +1103,16 @@ def str_method(eng, recv, name, args, kwargs, st):
     if name == "replace":
         if len(args) == 3 and args[2] == 1:
             return ok(Sym(z3.Replace(s, to_term(args[0]), to_term(args[1])), "str"), st)
+        if len(args) == 2 and isinstance(args[0], str) and len(args[0]) == 1 and args[1] == "":
+            # s.replace(c, ""): removal of one character, as a skolem function with its defining facts (valid for all s)
+            c = z3.StringVal(args[0])
+            r = z3.Function("remove_%s" % smt.sha("rm:" + args[0])[:8], S, S)(s)
+            st.pc.append(z3.Not(z3.Contains(r, c)))
+            st.pc.append(z3.Length(r) <= z3.Length(s))
+            st.pc.append(z3.Implies(z3.Not(z3.Contains(s, c)), r == s))
+            st.pc.append(z3.Implies(z3.Length(r) == z3.Length(s), r == s))
+            eng.assumed.add("str.replace(c, ''): modelled by its defining facts (no c left, not longer, identity when c does not occur)")
+            return ok(Sym(r, "str"), st)
         raise Unsupported("replace-all on a symbolic string")
     if name == "join":
         items = eng.iter_concrete(args[0], st)
@@ -1193,6 +1231,28 @@ def dict_method(eng, ref, h, name, args, kwargs, st):
         return err("KeyError", repr(k), st)
     if name == "copy":
         return ok(st.alloc(h.copy()), st)
+    if name == "setdefault":
+        k = args[0]
+        d = args[1] if len(args) > 1 else None
+        if isinstance(k, (Sym, Opq, Ref)):
+            raise Unsupported("setdefault with symbolic key")
+        if k in h.vals:
+            p = h.pres[k]
+            if p is True:
+                return ok(h.vals[k], st)
+            res = []
+            for flag, s2 in eng.fork(p, st):
+                hh = s2.heap[ref.oid]
+                if flag:
+                    hh.pres[k] = True
+                    res.append((hh.vals[k], s2))
+                else:
+                    hh.delete(k)
+                    hh.set(k, d)
+                    res.append((d, s2))
+            return res
+        h.set(k, d)
+        return ok(d, st)
     raise Unsupported("dict.%s" % name)
 
 
